@@ -7,6 +7,7 @@ import (
 	"crypto/sha256"
 	"encoding/binary"
 	"fmt"
+	"strings"
 
 	"github.com/nspcc-dev/neo-go/pkg/crypto/keys"
 	"github.com/nspcc-dev/neo-go/pkg/neotest"
@@ -112,6 +113,12 @@ func newPrepWith(b *runner.Batch, n int, set world.Set) *prep {
 	p.irAll = world.Multi(sorted, 3*2/3+1)
 	cfg := []any{[]byte("ContainerFee"), int64(1), []byte("ContainerAliasFee"), int64(1)}
 	if err := w.DeployFS(set, world.FSOptions{NetmapConfig: cfg, Alphabet: true, IR: world.Pubs(p.ir), ExtraTLDs: []string{"com"}}); err != nil {
+		if strings.Contains(err.Error(), "alphabet witness check failed") {
+			// the set-up calls carry exactly the documented requirement (the Alphabet's multi-signature)
+			b.Violation("set-up refused although the transaction carries the Alphabet's multi-signature (2/3+1 of the committee): "+err.Error(), nil)
+			w.Close()
+			return nil
+		}
 		b.Inconclusive("deploy: " + err.Error())
 		w.Close()
 		return nil
@@ -181,6 +188,10 @@ func newPrepWith(b *runner.Batch, n int, set world.Set) *prep {
 		must(b, w.Invoke(A, w.H("container"), "commitContainerListUpdate", p.cid, []any{int64(1)}), "commit") &&
 		must(b, w.Invoke([]world.SignerSpec{world.G(p.u0)}, w.H("nns"), "register", "own.com", p.u0.ScriptHash(), "a@b.c", int64(1), int64(1), int64(100000), int64(1)), "nns register") &&
 		must(b, w.Invoke([]world.SignerSpec{world.G(p.u0)}, w.H("nns"), "addRecord", "own.com", int64(16), "first"), "nns addRecord") &&
+		// a second-level name of u1 with a third-level name below it that belongs to u0: whoever registers under the
+		// latter needs u0, the owner of the directly enclosing name
+		must(b, w.Invoke([]world.SignerSpec{world.G(p.u1)}, w.H("nns"), "register", "uone.com", p.u1.ScriptHash(), "a@b.c", int64(1), int64(1), int64(100000), int64(1)), "nns register (u1)") &&
+		must(b, w.Invoke([]world.SignerSpec{world.G(p.u1), world.G(p.u0)}, w.H("nns"), "register", "deep.uone.com", p.u0.ScriptHash(), "a@b.c", int64(1), int64(1), int64(100000), int64(1)), "nns register (deep)") &&
 		must(b, w.Invoke([]world.SignerSpec{world.G(p.u0), world.G(world.Single(p.admk))}, w.H("nns"), "setAdmin", "own.com", world.Hash160Of(p.admk)), "nns setAdmin") &&
 		must(b, w.Invoke([]world.SignerSpec{world.G(p.u0)}, w.GAS, "transfer", p.u0.ScriptHash(), w.H("neofs"), int64(100_0000_0000), nil), "deposit") &&
 		must(b, w.Invoke([]world.SignerSpec{world.G(world.Single(p.cand1))}, w.H("neofs"), "innerRingCandidateAdd", p.cand1.PublicKey().Bytes()), "candidate add") &&
